@@ -66,6 +66,12 @@ def gen(rng, tier):
             pr = enc(b"verif-absent-%d" % rng.randrange(10**6))
             cmds += ["readconfig 8 %s %s %s %s x3d x23" % (pr, enc(b"/usr/lib"), enc(rng.choice([b"foo", b""])), enc(rng.choice([b"conf", b""]))), "dump 8",
                      rng.choice(["newkf 9 61 35", "newini 9"]), "opts 9", "readconfig 9 %s - %s x636f6e66 x3d x23" % (pr, enc(b"foo")), "dump 9"]
+        if rng.random() < 0.35:
+            # the caller goes on with what a layered read handed over: it is an input of the caller's own merges (in both
+            # roles), is queried again afterwards, and every handle is released exactly once at the end; the members of
+            # the history are merged by the caller as well
+            cmds += ["newini 5", gens.set_cmd(rng, 5), "merge 6 0 5", "merge 7 5 0", "getall 0", "dump 6", "merge 6 6 0", "dump 0"]
+            if st["hist"]: cmds.append("histmerge" + st["hist"][len("history"):])
         obs = [False] * (len(tree) + len(extra) + len(pre)) + [True] * (len(cmds) - len(tree) - len(extra) - len(pre))
         out.append(Scenario(cmds, obs, tags=(inj,)))
     return out
